@@ -1,5 +1,6 @@
 // C01 — query answers are a pure function of the input file and the query.
 #include "../gen.h"
+#include "../procref.h"
 
 using namespace vf;
 namespace WB = WorldBuilder;
@@ -50,6 +51,30 @@ static J gen_history(Chooser &ch, bool two_d)
     }
   c["steps"] = steps;
   return c;
+}
+
+static ProcRef g_ref;
+
+static std::vector<double> run_query(const WB::World &w, const J &s, const PropList &pl);
+
+// executed in a fresh process: one world, its requests in order, answers as bit patterns
+static J fresh_process_answers(const J &req)
+{
+  J out = J::obj();
+  J answers = J::arr();
+  {
+    auto w = make_world(req.at("world").str(), 1, "fresh");
+    for (const auto &s : req.at("steps").a)
+      {
+        J a = J::arr();
+        try { for (double v : run_query(*w, s, props_from(s.at("props")))) a.push(J(bits_hex(v))); }
+        catch (const std::exception &) { a = J(); }
+        answers.push(a);
+      }
+  }
+  out["answers"] = answers;
+  remove_scratch();
+  return out;
 }
 
 static std::vector<double> run_query(const WB::World &w, const J &s, const PropList &pl)
@@ -154,6 +179,32 @@ static Result check_history(const J &c)
           }
       }
     }
+  // process-state independence: each world's requests, answered by a fresh process that has seen
+  // nothing else (no other world, no earlier query), give the same bits
+  for (size_t wi = 0; wi < c.at("worlds").size(); ++wi)
+    {
+      J req = J::obj();
+      req["world"] = c.at("worlds")[wi];
+      J st = J::arr();
+      std::vector<size_t> idx;
+      for (size_t si = 0; si < c.at("steps").size(); ++si)
+        if (static_cast<size_t>(c.at("steps")[si].at("w").num()) == wi) { st.push(c.at("steps")[si]); idx.push_back(si); }
+      if (idx.empty()) continue;
+      req["steps"] = st;
+      const J resp = g_ref.ask(req);
+      if (resp.has("error")) { r.classes.push_back("fresh-process-error"); continue; }
+      for (size_t k = 0; k < idx.size(); ++k)
+        {
+          const J &a = resp.at("answers")[k];
+          const std::vector<double> &mine = first_answers[idx[k]];
+          if (a.is_null() || mine.empty()) continue;
+          r.inner++;
+          if (a.size() != mine.size()) return Result::fail("process-state-dependence", "a fresh process returns " + std::to_string(a.size()) + " values, this process " + std::to_string(mine.size()));
+          for (size_t j = 0; j < mine.size(); ++j)
+            if (a[j].str() != bits_hex(mine[j]))
+              return Result::fail("process-state-dependence", "world " + std::to_string(wi) + " step " + std::to_string(idx[k]) + " value " + std::to_string(j) + " is " + fmt(mine[j]) + " in this process (other worlds alive, earlier queries made) but a fresh process that only built this world returns bits " + a[j].str() + "; request " + c.at("steps")[idx[k]].dump());
+        }
+    }
   // history independence: the same requests again, in reverse order, give the same bits
   for (size_t si = c.at("steps").size(); si-- > 0;)
     {
@@ -168,6 +219,7 @@ static Result check_history(const J &c)
 
 int main(int argc, char **argv)
 {
+  g_ref.start(fresh_process_answers); // before anything in this process touches the library
   return run_main("C01", argc, argv,
   {
     {"history_3d", "1..3 worlds alive (1..5 features of all types, deterministic models, operations, optional forced surface T) x histories of 3..25 batched 3D requests (1..8 properties, any mix/order/multiplicity); oracle: twin world answering stand-alone requests, reversed/duplicated list, replay of the whole history in reverse. Non-trivial: point inside a feature and >=2 different kinds in the list", 60, [](Chooser &ch) { return gen_history(ch, false); }, check_history},
